@@ -124,6 +124,66 @@ func c12eval(r *vx.R, c c12case) {
 		if !bytes.Equal(x, sm2ref.Bytes32(p.X)) || !bytes.Equal(y, sm2ref.Bytes32(p.Y)) {
 			r.Violation("keys:derive:wrong", fmt.Sprintf("DerivePublic(%x) is not [d]G", a[0]), c)
 		}
+	case "retain":
+		// GenerateKey(a0), DerivePublic(a1), DerivePublic(a2), GenerateKey(a1): every result is copied when it is returned and
+		// compared with the live slices at the end; the live results are also overwritten (the caller owns them), after
+		// which a fresh derivation must still be right
+		type res struct {
+			name       string
+			live, copy [][]byte
+		}
+		var all []res
+		keepRes := func(name string, out ...[]byte) {
+			rr := res{name: name, live: out}
+			for _, o := range out {
+				rr.copy = append(rr.copy, append([]byte{}, o...))
+			}
+			all = append(all, rr)
+		}
+		kind, msg := vx.Try(func() {
+			for round := 0; round < 2; round++ {
+				d, x, y, err := sm2.GenerateKey(bytes.NewReader(a[0]))
+				if err == nil {
+					keepRes("GenerateKey#1", d, x, y)
+				}
+				x2, y2, err := sm2.DerivePublic(a[1])
+				if err == nil {
+					keepRes("DerivePublic#1", x2, y2)
+				}
+				x3, y3, err := sm2.DerivePublic(a[2])
+				if err == nil {
+					keepRes("DerivePublic#2", x3, y3)
+				}
+				d4, x4, y4, err := sm2.GenerateKey(bytes.NewReader(a[1]))
+				if err == nil {
+					keepRes("GenerateKey#2", d4, x4, y4)
+				}
+				sm2.CheckOnCurve(x2, y2)
+			}
+		})
+		if kind != "" {
+			r.Violation("keys:retain:panic", msg, c)
+			return
+		}
+		for _, rr := range all {
+			for i := range rr.live {
+				if !bytes.Equal(rr.live[i], rr.copy[i]) {
+					r.Violation("keys:retain:result-changed-later", fmt.Sprintf("output #%d of %s changed while later calls ran: was %x, now %x", i, rr.name, rr.copy[i], rr.live[i]), c)
+				}
+			}
+		}
+		for _, rr := range all {
+			for _, o := range rr.live {
+				for i := range o {
+					o[i] ^= 0xa5
+				}
+			}
+		}
+		p := sm2ref.BaseMul(bi(a[1]))
+		x, y, err := sm2.DerivePublic(a[1])
+		if err != nil || !bytes.Equal(x, sm2ref.Bytes32(p.X)) || !bytes.Equal(y, sm2ref.Bytes32(p.Y)) {
+			r.Violation("keys:retain:wrong-after-caller-overwrote-results", fmt.Sprintf("DerivePublic(%x) wrong after the caller overwrote earlier results: err=%v", a[1], err), c)
+		}
 	case "oncurve":
 		var got bool
 		kx, ky := append([]byte{}, a[0]...), append([]byte{}, a[1]...)
@@ -168,7 +228,7 @@ func keyBoundary() map[string]*big.Int {
 }
 
 func TestVX_C12(t *testing.T) {
-	r := vx.Begin("C12", "keys", "GenerateKey on every candidate stream of <=3 rejected candidates from {0,n-1,n,n+1,2^256-1} followed by one of {1,2,n-2,seeded} (d, bytes consumed and [d]G compared with sm2ref); TestPrivateKey on boundary values and n-1 with byte i +-1 for every i (tails kept/zeroed/ff), lengths 0..40; DerivePublic on the same scalars and lengths 0,31,33; CheckOnCurve on [k]G for k in {1..16,n-1,seeded}, every single-bit flip of x and y, off-curve pairs whose y^2 differs from x^3+ax+b only in structured bit sets of the value or of its Montgomery form (single bits, high/low limb halves), x+p encodings, (0,0), coordinates >= p, wrong lengths. Shape = (function, class)")
+	r := vx.Begin("C12", "keys", "GenerateKey on every candidate stream of <=3 rejected candidates from {0,n-1,n,n+1,2^256-1} followed by one of {1,2,n-2,seeded} (d, bytes consumed and [d]G compared with sm2ref); TestPrivateKey on boundary values and n-1 with byte i +-1 for every i (tails kept/zeroed/ff), lengths 0..40; DerivePublic on the same scalars and lengths 0,31,33; CheckOnCurve on [k]G for k in {1..16,n-1,seeded}, every single-bit flip of x and y, off-curve pairs whose y^2 differs from x^3+ax+b only in structured bit sets of the value or of its Montgomery form (single bits, high/low limb halves), x+p encodings, (0,0), coordinates >= p, wrong lengths incl. x||y of an on-curve point cut at every position 0..64; results of earlier GenerateKey/DerivePublic calls compared with copies after later calls, then overwritten by the caller before a fresh derivation; GenerateKey on runs of 8..1000 rejected candidates. Shape = (function, class)")
 	defer r.End()
 	selfCheck()
 	if raw, ok := vx.Replay("keys"); ok {
@@ -207,6 +267,17 @@ func TestVX_C12(t *testing.T) {
 		}
 	}
 	rec(nil, 0)
+	// long runs of rejected candidates: key generation keeps drawing
+	for _, m := range []int{8, 31, 32, 33, 64, 100, 255, 256, 1000} {
+		for _, x := range rej {
+			args := make([]string, 0, m+1)
+			for i := 0; i < m; i++ {
+				args = append(args, vx.Hex(b32(kb[x])))
+			}
+			args = append(args, vx.Hex(b32(kb["seeded"])))
+			run(c12case{"genkey", args, fmt.Sprintf("run:%s x%d", x, m)})
+		}
+	}
 	// streams that end before a valid candidate
 	run(c12case{"genkey", []string{vx.Hex(b32(kb["n"]))}, "only-rejected"})
 	run(c12case{"genkey", nil, "empty-stream"})
@@ -301,6 +372,19 @@ func TestVX_C12(t *testing.T) {
 	run(c12case{"oncurve", hexs(gx, pB), "y=p"})
 	run(c12case{"oncurve", hexs(bytes.Repeat([]byte{0xff}, 32), gy), "x=max"})
 	run(c12case{"oncurve", hexs(gx, bytes.Repeat([]byte{0xff}, 32)), "y=max"})
+	// compensating length errors: x||y of an on-curve point cut at every position other than 32
+	for qi, q := range []sm2ref.Point{g, sm2ref.BaseMul(modN(bi(vx.Fill("c12split", 32))))} {
+		cat := append(b32(q.X), b32(q.Y)...)
+		for cut := 0; cut <= 64; cut++ {
+			if cut != 32 {
+				run(c12case{"oncurve", hexs(cat[:cut], cat[cut:]), fmt.Sprintf("split%d:%d", qi, cut)})
+			}
+		}
+	}
+	// results handed out earlier stay what they were while later calls run (no storage shared between results)
+	for i := 0; i < 3; i++ {
+		run(c12case{"retain", hexs(b32(modN(bi(vx.Fill(fmt.Sprintf("ret%da", i), 32)))), b32(modN(bi(vx.Fill(fmt.Sprintf("ret%db", i), 32)))), b32(big.NewInt(int64(i+1)))), fmt.Sprintf("retain%d", i)})
+	}
 	for _, l := range []int{0, 1, 31, 33, 64} {
 		run(c12case{"oncurve", hexs(make([]byte, l), gy), fmt.Sprintf("xlen%d", l)})
 		run(c12case{"oncurve", hexs(gx, make([]byte, l)), fmt.Sprintf("ylen%d", l)})
